@@ -29,14 +29,14 @@ def build_jobs(tier, seed, kf_on):
         depth = label.count("+") + 1
         schema = {t: progs.SCHEMA[t] for t in tables}
         if tier == "quick":
-            if depth > 1 and idx % 2:
-                continue  # quick tier: every second 2-step program (all in thorough); single steps and curated triples always
+            if depth == 2 and not progs.quick_keep(label, 2):
+                continue  # quick tier: about every second 2-step program, chosen by content (all in thorough); single steps and curated triples always
             vecs = [{t: (2 if i < 2 else 1) for i, t in enumerate(tables)}]
             if depth == 1:
                 vecs += [{t: 0 for t in tables}, {t: 1 for t in tables}]
         else:
             vecs = [{t: (2 if i < 2 else 1) for i, t in enumerate(tables)}, {t: 0 for t in tables}, {t: 1 for t in tables}, {t: (3 if i == 0 else 1) for i, t in enumerate(tables)}]
-        opts = OPTION_SETS[(idx % len(OPTION_SETS))] if tier == "quick" else None
+        opts = OPTION_SETS[sum(label.encode()) % len(OPTION_SETS)] if tier == "quick" else None
         for rows in vecs:
             for o in ([opts] if tier == "quick" else OPTION_SETS):
                 rid = ",".join(f"{t}={n}" for t, n in rows.items())
